@@ -110,7 +110,19 @@ structure Flat where
   roots : List Nat
   deriving Repr, DecidableEq
 
-def strictFlat (bs : Bytes) : Option Flat := do
+/-- the header fields up to and including the root list -/
+structure Header where
+  hasIdx : Bool
+  hasCrc : Bool
+  hasCache : Bool
+  size : Nat
+  off : Nat
+  cells : Nat
+  tot : Nat
+  rootList : List Nat
+  deriving Repr, DecidableEq
+
+def readHeader (bs : Bytes) : Option (Header × Bytes) := do
   let (magic, r) ← takeN 4 bs
   if magic != [0xb5, 0xee, 0x9c, 0x72] then none else
   let (fl, r) ← uintBE 1 r
@@ -130,14 +142,22 @@ def strictFlat (bs : Bytes) : Option Flat := do
   let (tot, r) ← uintBE off r
   let (rootList, r) ← uintsBE roots size r
   if !rootList.all (· < cells) then none else
-  let (index, r) ← (if hasIdx then uintsBE cells off r else some ([], r))
-  let (cellData, r) ← takeN tot r
-  let cs ← readCells cells size cellData
-  if hasIdx && index.map (fun e => if hasCache then e / 2 else e) != endOffsets (cs.map (·.2)) then none else
-  if !(if hasCrc then r.length == 4 && r == crc32cLE (bs.take (bs.length - 4)) else r.isEmpty) then none else
+  pure (⟨hasIdx, hasCrc, hasCache, size, off, cells, tot, rootList⟩, r)
+
+/-- index, cell data, CRC; `whole` = the complete input (the CRC covers everything before it) -/
+def readBody (h : Header) (whole r : Bytes) : Option Flat := do
+  let (index, r) ← (if h.hasIdx then uintsBE h.cells h.off r else some ([], r))
+  let (cellData, r) ← takeN h.tot r
+  let cs ← readCells h.cells h.size cellData
+  if h.hasIdx && index.map (fun e => if h.hasCache then e / 2 else e) != endOffsets (cs.map (·.2)) then none else
+  if !(if h.hasCrc then r.length == 4 && r == crc32cLE (whole.take (whole.length - 4)) else r.isEmpty) then none else
   let recs := cs.map (·.1)
   if !refsForward recs then none else
-  pure ⟨recs, rootList⟩
+  pure ⟨recs, h.rootList⟩
+
+def strictFlat (bs : Bytes) : Option Flat := do
+  let (h, r) ← readHeader bs
+  readBody h bs r
 
 /-! ### semantic layer: level masks, duplicates, the denoted cells -/
 
